@@ -99,7 +99,9 @@ PROPS = {
                 assumptions=COMMON_ASSUME + ['exhaustive only per small case (all positions of a bulk-load <= 64 pairs, all 256 bases); the set of cases itself is sampled']),
     'C17': dict(level='exploration', budget={'quick': Q, 'thorough': T},
                 groups=[{'engine': 'buildsim', 'flavour': 'asan', 'weight': 5, 'profile': 'boundary'}, {'engine': 'buildsim', 'flavour': 'asan', 'weight': 4},
-                        {'engine': 'histsim', 'flavour': 'asan', 'weight': 3, 'profile': 'boundary'}, {'engine': 'histsim', 'flavour': 'asan', 'weight': 4}],
+                        {'engine': 'histsim', 'flavour': 'asan', 'weight': 3, 'profile': 'boundary'}, {'engine': 'histsim', 'flavour': 'asan', 'weight': 3},
+                        {'engine': 'filesim', 'flavour': 'asan', 'weight': 1, 'profile': 'boundary'}, {'engine': 'filesim', 'flavour': 'asan', 'weight': 1},
+                        {'engine': 'readsim', 'flavour': 'asan', 'weight': 1, 'profile': 'boundary'}, {'engine': 'readsim', 'flavour': 'asan', 'weight': 1}],
                 rule='AddressSanitizer is the oracle (a report ends the worker with exit code 77 and is gated, minimised and replayed like any other violation). boundary profile: n in 1..4 (and up to 2*Epsilon+4), empty dynamic containers, queries at lowest(), below first, above last, max-1, iterators driven to end(), boxes reaching the largest encodable code, absent points beyond all codes; '
                      'plus a slice of every engine\'s ordinary corpus (all classes, incl. MultidimensionalPGMIndex and the C wrapper). non-trivial and distinct = distinct (configuration x input signature) tuples executed under ASan',
                 assumptions=COMMON_ASSUME + ['the claim is bounded to the inputs the engines generate; reads inside an allocation but outside the logical structure are not visible to ASan']),
@@ -110,4 +112,10 @@ PROPS = {
     'C12': dict(level='exploration', budget={'quick': Q, 'thorough': T}, groups=C(),
                 rule='one case = (MappedPGMIndex configuration, sorted integer sequence with duplicate runs sized against the search range and the gallop of upper_bound, a history of container operations: create-from-range(F1), write raw file + create-from-raw(F2), reopen(F1/F2), reopen-again, query, destroy in seeded order with several containers alive on one file; I/O faults attached to operations by call index: eintr and short_io on every read/write/writev, fail-stop open_fail/mmap_fail; half of the runs fault-free; E1 for large files)' + '; oracle: F1 and F2 byte-identical; header fields (n, first_key, levels_offsets, segments) of every instance equal those of an index built over the same sequence; a reopen leaves the file byte-identical and performs no write-class call on it (shim monitor). non-trivial as C11; includes the exhaustive single-fault sweep on small creations',
                 assumptions=COMMON_ASSUME + ['write errors, crashes, torn or lost writes are not injected: no property quantifies over them and the code has no handling (DESIGN.md 3.4)']),
+    'C16': dict(level='exploration', budget={'quick': Q, 'thorough': T},
+                groups=[{'engine': 'readsim', 'flavour': 'tsan', 'weight': 9}, {'engine': 'readsim', 'flavour': 'plain', 'weight': 4}, {'engine': 'readsim', 'flavour': 'asan', 'weight': 3}],
+                rule='one case = (class and configuration of the shared object: PGMIndex, Compressed, Bucketing, EliasFano, Mapped (reopened file), Multidimensional, Dynamic (updated single-threaded beforehand); 2..16 reader tasks with seeded query scripts; preemption probability; schedule seed). '
+                     'readers are real threads of which exactly one runs, handed over by the seeded baton scheduler at operation, iterator-step and in-query (hook H2) yield points; the scheduler is invisible to ThreadSanitizer, so two conflicting accesses by different readers are reported whenever both occur in the run. '
+                     'oracles: zero TSan reports; every call returns what it returned in a solo pass before and in a second solo pass after. non-trivial and distinct = distinct schedules (decision hashes) in which >= 2 readers were each preempted mid-script',
+                assumptions=COMMON_ASSUME + ['no instruction-level interleaving: races are found by happens-before analysis over serial executions, their effects (e.g. a lost update) are not explored']),
 }
